@@ -142,7 +142,7 @@ Theorem C11_history : forall cfg h t0 script k gq obs r,
 Proof.
   intros cfg h t0 script k gq obs r all L Hk Ho Hr Hnc.
   destruct (history_safeX L cfg h (init_world t0 script)) as [_ H]; [intros k' e' E; discriminate|apply incl_refl|].
-  destruct (H k gq obs (OResp r) Hk Ho Hr Hnc) as [E|(e & Hs & Hd & E)]; [left; injection E as ->; reflexivity|right].
+  destruct (proj1 (H k gq obs (OResp r) Hk Ho Hr) Hnc) as [E|(e & Hs & Hd & E)]; [left; injection E as ->; reflexivity|right].
   exists e. split; [exact Hs|]. cbv zeta. unfold served_outcome in E.
   destruct Hd as [Hd|Hd]; rewrite Hd in E.
   - symmetry in E. destruct (C11_served_fields _ _ _ _ _ E) as (Ha & Hst & Hl & Hp & Hb).
